@@ -835,7 +835,7 @@ package fsutil
 // (possibly rewritten) path of that stat
 //@   at call filterFS.Walk.fn: reports_a_stat: isptr(arg1, DirEntryInfo) && asptr(arg1, DirEntryInfo) != nil && asptr(arg1, DirEntryInfo).Stat != nil
 //@   at call filterFS.Walk.fn: under_its_path: arg0 == asptr(arg1, DirEntryInfo).Stat.Path
-//@   at call filterFS.Walk.fn: reports_the_mapped_stat: asptr(arg1, DirEntryInfo).Stat == stat || (fs.mapFn != nil && asptr(arg1, DirEntryInfo).Stat == arg(MapFn, 1)) || (fs.mapFn == nil && asptr(arg1, DirEntryInfo).Stat == parentStat)
+//@   at call filterFS.Walk.fn: reports_the_mapped_stat: asptr(arg1, DirEntryInfo).Stat == stat || (fs.mapFn != nil ==> asptr(arg1, DirEntryInfo).Stat == arg(MapFn, 1))
 //@   at call filterFS.mapFn#0: map_sees_the_entry_stat: arg1 == stat && arg0 == stat.Path
 
 // ---------------------------------------------------------------------------
